@@ -241,6 +241,13 @@ def run(report):
             if n >= 2:
                 cases.append((t, ["r1"] + [""] * n))
                 cases.append((t, ["r1"] + args[:-2] + ["", ""]))
+        # the same recipe twice with argument lists that differ only in where the words are cut: two invocations
+        if len(sig) == 2 and all(k in ("req", "def", "defref", "defbt") for k in sig):
+            cases.append((t, ["r1", "a b", "c", "r1", "a", "b c"]))
+            cases.append((t, ["r1", "a b", "c", "r1", "a b", "c", "r1", "a", "b c"]))
+        if sig and sig[-1] in ("plus", "star", "stardef"):
+            lead = ["q%d" % i for i in range(len(sig) - 1)]
+            cases.append((t, ["r1"] + lead + ["a b", "r2", "z", "r1"] + lead + ["a", "b"]))
     n_exh = len(cases)
     # 2. random module trees x adversarial word vectors
     n = 1500 if tier == "quick" else 40000
